@@ -461,6 +461,11 @@ def build_fn(gen, d):
                         dm -= 1
                     elif ch == ';' and dm == 1:
                         pos = ci + 1
+                # ... or after a loop statement that directly precedes the tail expression
+                for (lkw, lp, lo, lc) in loops:
+                    if lc + 1 > pos and body_masked[:lp].count('{') - body_masked[:lp].count('}') == 1 \
+                            and body_masked[:lp].count('(') == body_masked[:lp].count(')'):
+                        pos = lc + 1
             elif re.match(r'loop(\d+)-before$', anchor):
                 pos = loops[int(re.match(r'loop(\d+)', anchor).group(1))][1]
                 inserts.append((pos, None, 'proof', b.lines, 2))
